@@ -20,6 +20,13 @@ def run(chk):
                     'results: their own behaviour is C01-C05, C07, C13, C15-C17; determinism of the three calls is C03')
     for ntx in (1, 2):
         one(chk, it, ntx)
+    # the proposer action is not a header field: its reward destination reaches the header only through the reward
+    # pseudo-coin in the coin tree, which therefore has to be created for every action, whatever the amounts
+    from props import c05
+    chk.assume_note('the proposer action is committed through the reward pseudo-coin (created for every action with covhash = '
+                    'reward_dest, decided here on collect_proposer_action_fee) and the fee multiplier step (C17); a delta '
+                    'whose step rounds to zero is not distinguishable by design')
+    c05.reward_kernel(chk, it)
 
 
 def one(chk, it, ntx):
